@@ -7,6 +7,9 @@ L2a the SIGTERM handler signals every live member of self.children (loop contrac
     killed cannot terminate the workers it created, which is the only way they end - see L2b).
 L4  at EVERY statement boundary of run() (where the handler may run) a registered child on which terminate() has not been invoked
     yet is still a member of self.children (at-all-points obligation; also a loop invariant of both loops).
+L3s the server-side RemoteWorker.terminate (what L1 invokes on every child): truthful; asks the child once; with force=True a child
+    that survives the request is sent SIGTERM and the parent is told: exactly one fabricated (False, None) on the data socket, which is
+    then closed (unless the connection is already gone); nothing is fabricated for a child that ended by itself.
 L2b/L3 (context helpers and their workers exit through pipe EOF; the parent side turns a closed or answered data socket into a
     final result) are compositions with the persistent-process and C01 cones and are NOT re-proved here (see ASSUMPTIONS)."""
 import z3
@@ -23,7 +26,7 @@ MIN_OBLIGATIONS = 40
 TRUSTED = _c11.TRUSTED + ['os.kill(pid, SIGTERM) delivers SIGTERM; a process that neither blocks nor handles it ends (T4)']
 ASSUMPTIONS = _c11.ASSUMPTIONS + [
     'L2b: context helper processes and the workers inside a context are not signalled by the handler (that much is checked: L2a frame obligation); they end because PersistentProcessWorker.do_work leaves its loop on pipe EOF when the server dies and RemoteContextWorker.do_work then runs _create_worker(_clean=True) (design probe P-17 observed all descendants gone within 3 s); not under contract in this round',
-    'L3: that each parent-side worker becomes dead with has_error True (WorkerTerminatedError if the child could report) is the composition of the server-side forced terminate answering/closing the data socket with C10 and C01.L2; the server-side RemoteWorker.terminate is in the C04 cone',
+    'L3: that each parent-side worker becomes dead with has_error True (WorkerTerminatedError if the child could report) is the composition of the server-side forced terminate answering/closing the data socket (lemma L3s) with C10 and C01.L2 (the parent turns a closed or answered data socket into a final result); the composition is argued, not one formula',
     '"shortly afterwards" and OS process-table facts are T4/T9',
 ]
 MUTANTS = [m for m in _c11.MUTANTS if 'terminate' in m[3] or 'signalled' in m[3] or 'forget' in m[3]] + [
@@ -33,6 +36,11 @@ MUTANTS = [m for m in _c11.MUTANTS if 'terminate' in m[3] or 'signalled' in m[3]
     ('pyworkers/remote_server.py', "            self.children.clear()\n            signal.signal(signal.SIGTERM, signal.SIG_DFL)",
      "            for ctx in self.contexts.values():\n                if ctx.is_alive():\n                    os.kill(ctx.pid, signal.SIGTERM)\n            self.children.clear()\n            signal.signal(signal.SIGTERM, signal.SIG_DFL)",
      'SIGTERM handler also kills the context helpers (their workers are orphaned)'),
+]
+MUTANTS += [
+    ('pyworkers/remote.py', "                        send_msg(self._socket, (False, None), comment='data: force terminate result')\n                        self._socket.close()\n", "                        self._socket.close()\n", 'server-side forced terminate no longer tells the parent'),
+    ('pyworkers/remote.py', "            if self._child.is_alive():\n                if force:\n                    self._child.terminate()\n                    self._child.join(timeout)\n                    try:", "            if self._child.is_alive():\n                if True:\n                    self._child.terminate()\n                    self._child.join(timeout)\n                    try:", 'server-side terminate kills without force'),
+    ('pyworkers/remote.py', "            alive = self._child.is_alive()\n            if not alive:\n                self._dead = True\n                self._ctrl_comms.parent_end.close()", "            alive = False\n            if not alive:\n                self._dead = True\n                self._ctrl_comms.parent_end.close()", 'server-side terminate always claims the child is dead'),
 ]
 MUTANTS = [m for m in MUTANTS if m[3] is not None]
 
@@ -123,7 +131,109 @@ def build(ex):
         ensures=[signalled], raises={}, raises_only=[],
         loops={0: Loop(invariant=[loop_inv, same_list], variant='__n__ - __i__', modifies=['ghost:killed_pids', 'abs:RCtx.alive'], on_bind=children_bound)},
         options={'recv_closed_check': False})
-    return [(run, None), (L2a, None)]
+    return [(run, None), (L2a, None)] + server_side_terminate(ex)
+
+
+def server_side_terminate(ex):
+    from . import workers as W
+    from pyvc.core import PyRaise
+    repo = ex.repo
+    RW = 'pyworkers.remote.RemoteWorker'
+    PRW = 'pyworkers.persistent_remote.PersistentRemoteWorker'
+    out = []
+
+    def setup(cls):
+        def su(ex_, env):
+            I = ex_.interp
+            if 'Proc' not in ex_.abs_classes:
+                ex_.abs_classes['Proc'] = W.proc_class()
+            ex_.abs_classes['Conn'].methods.setdefault('shutdown', lambda ex2, a, k: NONE)
+            child = VAbs('Proc', Val.v_str(z3.IntVal(smt.str_code('<backend process>'))))
+            cthread = VAbs('Proc', Val.v_str(z3.IntVal(smt.str_code('<remote control thread>'))))
+            pc = ex_.abs_classes['Proc']
+            for o in (child, cthread):
+                pc.set(ex_, o, 'alive', ex_.fresh('alive0', smt.Bool))
+                pc.set(ex_, o, 'joins', z3.IntVal(0))
+                pc.set(ex_, o, 'sigterm', z3.BoolVal(False))
+            sock = common.new_chan(ex_, 'Conn', 'sock')
+            csock = common.new_chan(ex_, 'Conn', 'ctrlsock')
+            ctrl, ctends = common.make_pipe(ex_, 'ctrl', 'Pipe')
+            attrs = {'_started': VBool(True), '_dead': I.sym('dead0', 'bool'), '_child': child, '_remote_side': VBool(True), '_is_backend': VBool(False),
+                     '_socket': sock, '_ctrl_sock': csock, '_ctrl_comms': ctrl, '_ctrl_thread_rem': cthread, '_result': I.sym('result0'),
+                     '_closed': I.sym('closed0', 'bool'), '_socket_closed': I.sym('socket_closed0', 'bool')}
+            env['self'] = ex_.alloc(HObj(repo.cls(cls), attrs))
+            env.update(child=child, cthread=cthread, sock=sock, ctrlq=ctends['parent'])
+            t = ex_.fresh('timeout', smt.Real)
+            ex_.assume(t >= 0)
+            env['timeout'] = VReal(t)
+            rt = ex_.fresh('remote_timeout', smt.Real)
+            ex_.assume(rt >= 0)
+            env['remote_timeout'] = VReal(rt)
+            env['force'] = I.sym('force', 'bool')
+            env['_release_remote_ctrl'] = I.sym('release_ctrl', 'bool')
+            ex_.ghost['__call_hooks__'] = dict(common.MSG_HOOKS)
+            ex_.ghost['__call_hooks__']['pyworkers.utils.foreign_raise'] = lambda i2, fi, a, k, n, s: NONE
+            ex_.ghost['send_raises'] = {'sock': ['ConnectionClosedError']}
+            ex_.ghost['recv_closed_check'] = False
+            # a dead worker's control pipe has been closed by the call that found it dead; a live one's is open
+            ex_.abs_classes['Conn'].set(ex_, ctends['parent'], 'open', z3.Not(attrs['_dead'].e))
+        return su
+
+    def fab():
+        return Val.v_tup(smt.mk_list([Val.v_bool(z3.BoolVal(False)), Val.v_none]))
+
+    def post(c):
+        ex_ = c.ex
+        pc, cc = ex_.abs_classes['Proc'], ex_.abs_classes['Conn']
+        a0 = ex_.old['heap'][c.env['self'].addr].attrs
+        a1 = ex_.heap[c.env['self'].addr].attrs
+        dead0 = a0['_dead'].e
+        res = c.env['result'].e
+        alive = pc.get(ex_, c.env['child'], 'alive')
+        sig = pc.get(ex_, c.env['child'], 'sigterm')
+        out = cc.get(ex_, c.env['sock'], 'out')
+        out0 = z3.Select(ex_.old['absfields'][('Conn', 'out')], c.env['sock'].key)
+        req = cc.get(ex_, c.env['ctrlq'], 'out')
+        told = out == z3.Concat(out0, z3.Unit(fab()))
+        force = c.env['force'].e
+        truthful = z3.And(z3.Implies(z3.Not(dead0), res == z3.Not(alive)), z3.Implies(dead0, res), z3.Implies(res, a1['_dead'].e))
+        quiet_when_dead = z3.Implies(dead0, z3.And(out == out0, z3.Length(req) == 0, z3.Not(sig)))
+        only_that = z3.Or(out == out0, told)
+        fabricated_only_after_kill = z3.Implies(told, z3.And(sig, force))
+        killed_means_told = z3.Implies(sig, z3.Or(told, ex_.ghost.get('__send_failed__', z3.BoolVal(False))))
+        no_force_no_kill = z3.Implies(z3.Not(force), z3.Not(sig))
+        return z3.And(truthful, quiet_when_dead, only_that, fabricated_only_after_kill, killed_means_told, no_force_no_kill)
+    post.__doc__ = ('truthful (result == the child is dead, cached); silent on a worker already known dead; the data socket gets nothing but at most one fabricated '
+                    '(False, None), only after SIGTERM was sent to the child with force=True, and always then (unless the connection is already closed); no SIGTERM without force')
+
+    def asked_once(c):
+        ex_ = c.ex
+        cc = ex_.abs_classes['Conn']
+        a0 = ex_.old['heap'][c.env['self'].addr].attrs
+        req = cc.get(ex_, c.env['ctrlq'], 'out')
+        alive_at_entry = ex_.ghost.get('__alive_at_entry__')
+        one = z3.And(z3.Length(req) == 1, req[0] == Val.v_str(z3.IntVal(smt.str_code('terminate'))))
+        return z3.Or(z3.Length(req) == 0, one)
+    asked_once.__doc__ = "the backend's control pipe gets the request 'terminate' at most once and nothing else"
+
+    for cls, tag in ((RW, 'one-shot'), (PRW, 'persistent')):
+        def su2(ex_, env, cls=cls):
+            setup(cls)(ex_, env)
+            # remember whether a send on the data socket failed (ConnectionClosedError): the parent has gone, nobody is left to tell
+            orig = common.msg_send_hook
+
+            def send(i2, fi, a, k, n, s):
+                try:
+                    return orig(i2, fi, a, k, n, s)
+                except PyRaise:
+                    ex_.ghost['__send_failed__'] = z3.BoolVal(True)
+                    raise
+            ex_.ghost['__call_hooks__']['pyworkers.remote.send_msg'] = send
+        out.append((Contract(RW + '.terminate', lid='L3s', name='C12.L3s server-side terminate: truthful, asks once, a forced kill is reported to the parent on the data socket',
+                             params={'self': ('const', None), 'timeout': ('const', None), 'force': ('const', None), 'remote_timeout': ('const', None),
+                                     '_release_remote_ctrl': ('const', None)}, self_class=cls, setup=su2, returns='bool',
+                             ensures=[post, asked_once], raises={}, raises_only=[], options={'recv_closed_check': False}), (tag, lambda ex_, env: None)))
+    return out
 
 
 def replay(ob, repo):
